@@ -70,6 +70,14 @@ def generate(rng, tier, seed):
     nr = 30000 if thorough else 6000
     cases.append({"scn": ["conc", ["objects", ["tovec", p]], ["init", ["block_on", 0]], ["threads"], ["fini"], ["sched", "pct", 3, seed * 1000 + 7, nr]],
                   "sched": ["pct", 3, seed * 1000 + 7, nr], "items": [1], "en": "c", "pipe": sx.dumps(p)})
+    # ... and the smallest FAILING instance with a spinning re-poller: a poll that overlaps the error callback (between its two
+    # writes, or with its two reads straddling them) must not resolve to Ok
+    nr2 = 20000 if thorough else 4000
+    scn = ["conc", ["objects", ["subject", "replay"], ["tovec", ["hot", 0]]], ["init"],
+           ["threads", ["w", ["block_on", 0]], ["r", ["repoll", 0], ["repoll", 0], ["repoll", 0], ["repoll", 0]],
+            ["p", ["next", 0, 1], ["error", 0, 5]]],
+           ["fini"], ["sched", "pct", 3, seed * 1000 + 11, nr2]]
+    cases.append({"scn": scn, "sched": ["pct", 3, seed * 1000 + 11, nr2], "items": [1], "en": ["e", 5], "pipe": "(hot replay)+repoll+error", "repoll": True})
     # a source that never terminates: the future must stay pending (the run ends with the poller parked)
     p = ["op", "observe_on", [], ["op", "concat", [], ["from_iter", 1, 2], ["never"]]]
     cases.append({"scn": ["conc", ["objects", ["tovec", p]], ["init", ["block_on", 0]], ["threads"], ["fini"], ["sched", "random", seed, 20]],
